@@ -14,12 +14,15 @@ use std::collections::{BTreeMap, HashMap};
 use std::fmt::Write as _;
 use std::panic::{catch_unwind, AssertUnwindSafe};
 
-struct System { vars: Vec<Var>, coef: Vec<Vec<i32>>, rhs: Vec<f32>, truth: Vec<f32>, fixed: Vec<bool>, start: Vec<f32> }
+#[derive(Clone)]
+struct System { exact: bool, vars: Vec<Var>, coef: Vec<Vec<i32>>, rhs: Vec<f32>, truth: Vec<f32>, fixed: Vec<bool>, start: Vec<f32> }
 
 fn gen_system(r: &mut Rng) -> System {
     let n = *r.pick(&[1usize, 2, 3, 4, 5, 6, 7, 8, 10, 13, 16, 25, 40]);
     let vars: Vec<Var> = (0..n).map(|_| Var::new()).collect();
-    let truth: Vec<f32> = (0..n).map(|_| (r.range(0, 16) as f32 - 8.0) * 0.5).collect();
+    // half of the systems have solutions on a dyadic grid (every residual can reach exactly 0), half do not
+    let exact = r.chance(0.5);
+    let truth: Vec<f32> = (0..n).map(|_| if exact { (r.range(0, 16) as f32 - 8.0) * 0.5 } else { (r.unit() as f32 - 0.5) * 8.0 }).collect();
     let mode = r.below(5);
     let fixed: Vec<bool> = (0..n).map(|_| match mode { 0 => false, 1 => true, _ => r.chance(0.35) }).collect();
     // one equation per variable: diagonally dominant rows over a few variables each
@@ -31,7 +34,7 @@ fn gen_system(r: &mut Rng) -> System {
     }
     let rhs: Vec<f32> = (0..n).map(|i| (0..n).map(|j| coef[i][j] as f32 * truth[j]).sum()).collect();
     let start: Vec<f32> = (0..n).map(|j| if fixed[j] { truth[j] } else if r.chance(0.15) { truth[j] } else { truth[j] + (r.range(0, 8) as f32 - 4.0) * 0.25 }).collect();
-    System { vars, coef, rhs, truth, fixed, start }
+    System { exact, vars, coef, rhs, truth, fixed, start }
 }
 
 fn build<F: Function + MathFunction>(s: &System) -> Vec<F> {
@@ -44,14 +47,24 @@ fn build<F: Function + MathFunction>(s: &System) -> Vec<F> {
     }).collect()
 }
 
-fn check<F: Function + MathFunction>(s: &System, backend: &str, bad: &mut Vec<String>) -> Option<HashMap<Var, f32>> {
-    let eqs: Vec<F> = build(s);
+fn check<F: Function + MathFunction + 'static>(s: &System, backend: &str, bad: &mut Vec<String>) -> Option<HashMap<Var, f32>> {
     let mut params = HashMap::new();
     for j in 0..s.vars.len() { params.insert(s.vars[j], if s.fixed[j] { Parameter::Fixed(s.start[j]) } else { Parameter::Free(s.start[j]) }); }
-    let sol = match catch_unwind(AssertUnwindSafe(|| solve(&eqs, &params))) {
-        Ok(Ok(m)) => m,
-        Ok(Err(e)) => { bad.push(format!("kind=solver-error backend={backend} {e}")); return None; }
-        Err(_) => { bad.push(format!("kind=panic backend={backend} n={} fixed={}", s.vars.len(), s.fixed.iter().filter(|f| **f).count())); return None; }
+    // the solver runs on its own thread: a call that does not come back within the limit is reported (and its thread left behind)
+    let (tx, rx) = std::sync::mpsc::channel();
+    let (s2, p2) = (s.clone(), params.clone());
+    std::thread::spawn(move || { let eqs: Vec<F> = build(&s2); let r = catch_unwind(AssertUnwindSafe(|| solve(&eqs, &p2))); let _ = tx.send(r); });
+    let limit = std::time::Duration::from_secs(std::env::var("FV_SOLVE_LIMIT").ok().and_then(|v| v.parse().ok()).unwrap_or(20));
+    let sol = match rx.recv_timeout(limit) {
+        Ok(Ok(Ok(m))) => m,
+        Ok(Ok(Err(e))) => { bad.push(format!("kind=solver-error backend={backend} {e}")); return None; }
+        Ok(Err(_)) => { bad.push(format!("kind=panic backend={backend} n={} fixed={}", s.vars.len(), s.fixed.iter().filter(|f| **f).count())); return None; }
+        Err(_) => {
+            // known mechanism (KNOWN_FINDINGS, C19): a free unknown whose solution is exactly 0 is approached geometrically through
+            // ever smaller steps, each of which still "changes" the iterate, so none of the exit criteria fires for tens of thousands of iterations
+            let zeros = (0..s.vars.len()).filter(|j| !s.fixed[*j] && s.truth[*j] == 0.0).count();
+            let kind = if zeros > 0 && s.exact { "solver-creeps-toward-zero-solution" } else { "solver-does-not-return" };
+            bad.push(format!("kind={kind} backend={backend} within {}s n={} zero-valued-free-unknowns={zeros} fixed={:?} start={:?} truth={:?} coef={:?}", limit.as_secs(), s.vars.len(), s.fixed, s.start, s.truth, s.coef)); return None; }
     };
     // a value for exactly the free parameters
     for j in 0..s.vars.len() {
@@ -69,7 +82,8 @@ fn check<F: Function + MathFunction>(s: &System, backend: &str, bad: &mut Vec<St
     }
     // fixed parameters sit at their true values, so the system stays consistent
     if !(worst <= 1e-3) { bad.push(format!("kind=large-residual backend={backend} residual={worst} n={} fixed={}", s.vars.len(), s.fixed.iter().filter(|f| **f).count())); }
-    if all_start_exact {
+    // (only systems on the dyadic grid are satisfied EXACTLY in f32 at their solution)
+    if all_start_exact && s.exact {
         for j in 0..s.vars.len() { if !s.fixed[j] && sol[&s.vars[j]].to_bits() != s.start[j].to_bits() {
             bad.push(format!("kind=satisfied-start-moved backend={backend} variable {j}: {} -> {}", s.start[j], sol[&s.vars[j]])); } }
     }
